@@ -1,0 +1,26 @@
+// Copyright 2019 The Scriggo Authors. All rights reserved.
+// Use of this source code is governed by a BSD-style
+// license that can be found in the LICENSE file.
+
+//go:build !verif
+
+package runtime
+
+import "reflect"
+
+// verifOn reports whether the verification hooks are compiled in. Without
+// the "verif" build tag it is the constant false, so every
+// "if verifOn { ... }" guard is removed by the compiler.
+const verifOn = false
+
+func verifRT(vm *VM, ev string, a int, b uintptr) {}
+
+func verifChanPtr(ch reflect.Value) uintptr { return 0 }
+
+func verifRecvVal(v reflect.Value, ok bool) int { return 0 }
+
+func verifSelectDone(vm *VM, chosen int, recv reflect.Value, recvOK bool) {}
+
+func verifArgsPtr(args []reflect.Value) uintptr { return 0 }
+
+func verifVMPtr(vm *VM) uintptr { return 0 }
